@@ -8,6 +8,7 @@ import (
 	"fmt"
 	"math/big"
 	"sort"
+	"strings"
 	"time"
 
 	vestingkeeper "github.com/chain4energy/c4e-chain/x/cfevesting/keeper"
@@ -24,6 +25,7 @@ type vestMachine struct {
 	// observations for non-triviality
 	acceptedSend, withdrawAfterLockEnd, rejectedAfterImplicitWithdraw, rejected int
 	exactLockEnd, maturedAndLocked, multiMaturePaid, fracFree, exactRemainder   int
+	restartMixedUnits, denomProposals, upperSpelled                             int
 	created                                                                     []sdk.AccAddress // vesting accounts created so far
 }
 
@@ -93,6 +95,16 @@ func (m *vestMachine) afterStep(what string, res MsgResult, digestBefore string)
 	}
 }
 
+// spell renders an address for a message or request field: bech32 has an all lower case and an all
+// upper case spelling of every address, both valid and both naming the same account.
+func (m *vestMachine) spell(label string, a sdk.AccAddress) string {
+	if rapid.IntRange(0, 4).Draw(m.t, label+"_upper") == 0 {
+		m.upperSpelled++
+		return strings.ToUpper(a.String())
+	}
+	return a.String()
+}
+
 func (m *vestMachine) Fatalf(f string, a ...interface{}) { m.fail(f, a...) }
 
 // ---------------------------------------------------------------- actions
@@ -151,7 +163,7 @@ func (m *vestMachine) actCreatePool() {
 	pre := m.snapPools(owner.String())
 	balPre := m.v.Bal(owner)
 	dg := m.v.StateDigest()
-	res := m.v.Run(&vestingtypes.MsgCreateVestingPool{Owner: owner.String(), Name: name, Amount: amt, Duration: time.Duration(dur), VestingType: vt})
+	res := m.v.Run(&vestingtypes.MsgCreateVestingPool{Owner: m.spell("ownerSpelling", owner), Name: name, Amount: amt, Duration: time.Duration(dur), VestingType: vt})
 	m.note("createPool owner=%s name=%q amt=%s dur=%d vt=%s -> ok=%v", owner, name, amt, dur, vt, res.OK())
 	if res.OK() && m.on["C05"] {
 		post := m.snapPools(owner.String())
@@ -213,7 +225,7 @@ func (m *vestMachine) actWithdraw() {
 	// query agreement (C06): withdrawable per pool before the withdrawal in the same block
 	var qWithdrawable, qLocked, qSent []string
 	if len(pre) > 0 {
-		q, err := m.v.App.CfevestingKeeper.VestingPools(sdk.WrapSDKContext(m.v.Ctx), &vestingtypes.QueryVestingPoolsRequest{Owner: owner.String()})
+		q, err := m.v.App.CfevestingKeeper.VestingPools(sdk.WrapSDKContext(m.v.Ctx), &vestingtypes.QueryVestingPoolsRequest{Owner: m.spell("queryOwnerSpelling", owner)})
 		if err != nil {
 			m.fail("VestingPools query failed for an owner with pools: %v", err)
 		}
@@ -223,7 +235,7 @@ func (m *vestMachine) actWithdraw() {
 			qSent = append(qSent, pi.SentAmount)
 		}
 	}
-	res := m.v.Run(&vestingtypes.MsgWithdrawAllAvailable{Owner: owner.String()})
+	res := m.v.Run(&vestingtypes.MsgWithdrawAllAvailable{Owner: m.spell("ownerSpelling", owner)})
 	m.note("withdraw owner=%s -> ok=%v", owner, res.OK())
 	nMat, nLocked := 0, 0
 	for _, p := range pre {
@@ -309,7 +321,7 @@ func (m *vestMachine) checkWithdrawEvents(evs sdk.Events, owner string, pre []po
 	}
 	var have []string
 	for _, e := range got {
-		if unq(e["owner"]) != owner {
+		if !strings.EqualFold(unq(e["owner"]), owner) { // either bech32 spelling names the owner
 			m.fail("%s: WithdrawAvailable event for owner %s, expected %s", what, e["owner"], owner)
 		}
 		have = append(have, unq(e["vesting_pool_name"])+"="+unq(e["amount"]))
@@ -386,7 +398,7 @@ func (m *vestMachine) actSend() {
 	balOwnerPre := m.v.Bal(owner)
 	toExisted := m.v.AccountBytes(to) != nil
 	dg := m.v.StateDigest()
-	res := m.v.Run(&vestingtypes.MsgSendToVestingAccount{Owner: owner.String(), ToAddress: to.String(), VestingPoolName: pool, Amount: amt, RestartVesting: restart})
+	res := m.v.Run(&vestingtypes.MsgSendToVestingAccount{Owner: m.spell("ownerSpelling", owner), ToAddress: m.spell("toSpelling", to), VestingPoolName: pool, Amount: amt, RestartVesting: restart})
 	m.note("send owner=%s pool=%q to=%s(existed=%v) amt=%s avail=%s restart=%v -> ok=%v", owner, pool, to, toExisted, amt, avail, restart, res.OK())
 
 	anyMatured := false
@@ -465,6 +477,9 @@ func (m *vestMachine) actSend() {
 			now := nsTime(m.v.NowNs)
 			var ws, we int64
 			if restart {
+				if g := vt.GenesisForm(); g.LockupPeriodUnit != g.VestingPeriodUnit && vt.VestNs > 0 {
+					m.restartMixedUnits++
+				}
 				ws = now.Add(time.Duration(vt.LockupNs)).Unix()
 				we = now.Add(time.Duration(vt.LockupNs)).Add(time.Duration(vt.VestNs)).Unix()
 			} else {
@@ -522,7 +537,7 @@ func (m *vestMachine) actCreateVestingAccount() {
 	toExisted := m.v.AccountBytes(to) != nil
 	balFromPre, balToPre := m.v.Bal(from), m.v.Bal(to)
 	dg := m.v.StateDigest()
-	res := m.v.Run(&vestingtypes.MsgCreateVestingAccount{FromAddress: from.String(), ToAddress: to.String(), Amount: coins, StartTime: start, EndTime: end})
+	res := m.v.Run(&vestingtypes.MsgCreateVestingAccount{FromAddress: m.spell("fromSpelling", from), ToAddress: m.spell("toSpelling", to), Amount: coins, StartTime: start, EndTime: end})
 	m.note("createVestingAccount from=%s to=%s(existed=%v) coins=%s start=%d end=%d -> ok=%v", from, to, toExisted, coins, start, end, res.OK())
 	if res.OK() {
 		m.created = append(m.created, to)
@@ -582,7 +597,24 @@ func (m *vestMachine) actions() map[string]func(*rapid.T) {
 		"send":                 func(*rapid.T) { m.actSend() },
 		"createVestingAccount": func(*rapid.T) { m.actCreateVestingAccount() },
 		"split":                func(*rapid.T) { m.actSplit() },
+		"denomProposal":        func(*rapid.T) { m.actDenomProposal() },
 	}
+}
+
+// actDenomProposal submits a governance change of the vesting denomination while pool records
+// exist.  Pools carry no denomination of their own (every payout reads it from the parameters), so
+// the histories this machine explores include such proposals; whatever the module answers, the
+// oracles of the following steps keep applying to the pools that exist.
+func (m *vestMachine) actDenomProposal() {
+	if len(m.v.App.CfevestingKeeper.GetAllAccountVestingPools(m.v.Ctx)) == 0 {
+		m.note("denom proposal skipped: no pools yet")
+		return
+	}
+	dg := m.v.StateDigest()
+	res := m.v.Run(&vestingtypes.MsgUpdateDenomParam{Authority: GovAuthority(), Denom: "uatom"})
+	m.note("governance denom proposal uatom -> ok=%v", res.OK())
+	m.denomProposals++
+	m.afterStep("denom proposal", res, dg)
 }
 
 // seedPools gives every owner a few pools with distinct lock ends so that short histories already
